@@ -381,6 +381,15 @@ def oversize_grid(v=(1, 2)):
     for label, req in secret_shapes():
         for mx in (1, 120):
             steps.append({"label": "oversize/%s" % label, "req": dict(copy.deepcopy(req), v=list(v), max=mx)})
+    if tuple(v) >= (1, 2):
+        # a Decrypt that SUCCEEDS (its answer carries the plaintext of an earlier Encrypt of this
+        # history) but whose answer is larger than the client allows
+        for j, (n, mx) in enumerate(((16, 64), (64, 120), (600, 256), (48, 200))):
+            steps.append({"label": "oversize/Encrypt-for-decrypt", "req": {"v": list(v), "items": [
+                {"op": "Encrypt", "uid": "$u:0", "params": AES_CBC, "data": "$c:plaintext:ov%d:%d" % (j, n),
+                 "iv": BLK}]}})
+            steps.append({"label": "oversize/Decrypt-success", "req": {"v": list(v), "max": mx, "items": [
+                {"op": "Decrypt", "uid": "$u:0", "params": AES_CBC, "data": "$d:-1", "iv": BLK}]}})
     return [history("oversize-%d.%d#%d" % (v[0], v[1], i // 40), steps[i:i + 40], v)
             for i in range(0, len(steps), 40)]
 
@@ -529,12 +538,45 @@ def grid_histories(tier):
                 "obj": {"type": "SymmetricKey", "value": "$c:key-symmetric:cs%s:32" % val, "alg": "AES",
                         "len": 256, "fmt": "RAW"}}))
         out += chunked("creators-%d.%d" % v, creators, v, 30)
+    out.append(many_keys_history())
     out += internal_error_histories()
     # control: with DEBUG switched on the session logs every frame in hex - records below INFO
     # must be seen by the handler and left out of the verdict
     for h in decode_grid(vmain)[:2] + oversize_grid(vmain)[:1]:
         out.append(dict(copy.deepcopy(h), debug=True, seed=h["seed"] + "-debug", label="debugctl-" + h["label"]))
     return out
+
+
+def many_keys_history(n=20):
+    """Many distinct keys used again and again in one server process (whatever the server keeps
+    per key between requests is filled, overflows and is evicted): n key pairs and n AES keys are
+    made by the server, every private key signs, every AES key encrypts and MACs, the first ones
+    twice, in three rounds."""
+    v = (1, 2)
+    steps = []
+    u0 = 0                     # no setup objects: $u:0.. are the objects of this history
+    for i in range(n):
+        steps.append({"label": "many/CreateKeyPair", "req": {"v": list(v), "items": [F.keypair_item()]}})
+        steps.append({"label": "many/Create", "req": {"v": list(v), "items": [F.create_item()]}})
+    # per round i the objects are: private 3i, public 3i+1, AES 3i+2 (identifiers in response order)
+    for i in range(n):
+        steps.append({"label": "many/Activate", "req": {"v": list(v), "items": [
+            {"op": "Activate", "uid": "$u:%d" % (u0 + 3 * i), "bid": "01"},
+            {"op": "Activate", "uid": "$u:%d" % (u0 + 3 * i + 2), "bid": "02"}], "cont": "CONTINUE"}})
+    order = []
+    for rnd in range(3):
+        order += [0, 0, 1] + list(range(n)) + [0, 1]
+    for k, i in enumerate(order):
+        steps.append({"label": "many/Sign", "req": {"v": list(v), "items": [
+            {"op": "Sign", "uid": "$u:%d" % (u0 + 3 * i), "params": RSA_SIG, "data": "$c:sign-data:mk%d:16" % k}]}})
+        if k % 2 == 0:
+            steps.append({"label": "many/Encrypt", "req": {"v": list(v), "items": [
+                {"op": "Encrypt", "uid": "$u:%d" % (u0 + 3 * i + 2), "params": AES_CBC,
+                 "data": "$c:plaintext:mk%d:16" % k, "iv": BLK}]}})
+            steps.append({"label": "many/MAC", "req": {"v": list(v), "items": [
+                {"op": "MAC", "uid": "$u:%d" % (u0 + 3 * i + 2), "params": {"alg": "HMAC_SHA256"},
+                 "data": "$c:mac-data:mk%d:16" % k}]}})
+    return history("many-keys", steps, v, setup=False)
 
 
 # ----------------------------------------------------------------------------- client histories
